@@ -13,6 +13,7 @@ import (
 	"os"
 	"strconv"
 	"strings"
+	"time"
 
 	"github.com/onflow/cadence/common"
 	"github.com/onflow/cadence/interpreter"
@@ -22,7 +23,7 @@ import (
 )
 
 func init() {
-	hx.Register(&hx.Stream{Name: "fault", Gen: c28Gen, Exec: c28Exec, Parallel: true})
+	hx.Register(&hx.Stream{Name: "fault", Gen: c28Gen, Exec: host.Robust(c28Exec, 120*time.Second, 900*time.Second), Parallel: true, Timeout: host.RobustTimeout})
 }
 
 const c28Contract = `access(all) contract D { ` +
